@@ -107,52 +107,64 @@ func runC19(a *A) {
 		dc := a.FieldOf(S(), "dataChan")
 		dropped := a.FieldOf(S(), "mInputDropped")
 		n := 0
+		// the drain is in Stop or in a method of Stream that Stop calls (one level)
+		scan := []*ssa.Function{stop}
 		allInstrs(stop, func(in ssa.Instruction) {
-			sel, ok := in.(*ssa.Select)
-			if !ok {
+			if _, isGo := in.(*ssa.Go); isGo {
 				return
 			}
-			for i, st := range sel.States {
-				if st.Dir != types.RecvOnly {
-					continue
+			if h := staticCallee(in); h != nil && h.Blocks != nil && h.Pkg == stop.Pkg && h.Signature.Recv() != nil && types.Identical(derefT(h.Signature.Recv().Type()), types.Type(S())) {
+				scan = append(scan, h)
+			}
+		})
+		for _, host := range scan {
+			allInstrs(host, func(in ssa.Instruction) {
+				sel, ok := in.(*ssa.Select)
+				if !ok {
+					return
 				}
-				if d, c := isDataChan(st.Chan, dc); !d && !c {
-					continue
-				}
-				n++
-				// the block entered when state i was chosen
-				counted := false
-				for _, r := range *sel.Referrers() {
-					ex, ok := r.(*ssa.Extract)
-					if !ok || ex.Index != 0 {
+				for i, st := range sel.States {
+					if st.Dir != types.RecvOnly {
 						continue
 					}
-					for _, rr := range *ex.Referrers() {
-						bo, ok := rr.(*ssa.BinOp)
-						if !ok || bo.Op != token.EQL {
+					if d, c := isDataChan(st.Chan, dc); !d && !c {
+						continue
+					}
+					n++
+					// the block entered when state i was chosen
+					counted := false
+					for _, r := range *sel.Referrers() {
+						ex, ok := r.(*ssa.Extract)
+						if !ok || ex.Index != 0 {
 							continue
 						}
-						k, ok := bo.Y.(*ssa.Const)
-						if !ok || k.Int64() != int64(i) {
-							continue
-						}
-						for _, rrr := range *bo.Referrers() {
-							if iff, ok := rrr.(*ssa.If); ok {
-								for _, x := range iff.Block().Succs[0].Instrs {
-									if cc := callCommon(x); cc != nil && len(cc.Args) > 0 {
-										if t := TermOf(cc.Args[0], nil); strings.Contains(t.String(), dropped.Name()) && cc.StaticCallee() != nil && cc.StaticCallee().Name() == "Inc" {
-											counted = true
+						for _, rr := range *ex.Referrers() {
+							bo, ok := rr.(*ssa.BinOp)
+							if !ok || bo.Op != token.EQL {
+								continue
+							}
+							k, ok := bo.Y.(*ssa.Const)
+							if !ok || k.Int64() != int64(i) {
+								continue
+							}
+							for _, rrr := range *bo.Referrers() {
+								if iff, ok := rrr.(*ssa.If); ok {
+									for _, x := range iff.Block().Succs[0].Instrs {
+										if cc := callCommon(x); cc != nil && len(cc.Args) > 0 {
+											if t := TermOf(cc.Args[0], nil); strings.Contains(t.String(), dropped.Name()) && cc.StaticCallee() != nil && cc.StaticCallee().Name() == "Inc" {
+												counted = true
+											}
 										}
 									}
 								}
 							}
 						}
 					}
+					a.Check(counted, fname(stop)+"#drain-counted", sel.Pos(), "each row Stop takes out of the input buffer is counted as dropped",
+						"Stop receives rows from the input buffer without counting them: they are neither processed nor in input_dropped_count")
 				}
-				a.Check(counted, fname(stop)+"#drain-counted", sel.Pos(), "each row Stop takes out of the input buffer is counted as dropped",
-					"Stop receives rows from the input buffer without counting them: they are neither processed nor in input_dropped_count")
-			}
-		})
+			})
+		}
 		if n == 0 {
 			a.Bad(fname(stop)+"#drain-counted", stop.Pos(), "Stop abandons the input buffer without draining it: the rows still queued are neither processed nor counted as dropped")
 		}
@@ -175,50 +187,81 @@ func runC19(a *A) {
 		a.Check(isMk && L.Held(swap)[key] == 'W', fname(fn)+"#swap-under-lock", swap.Pos(), "the new channel is installed under the write lock", "the channel swap is not done under dataChanMux.Lock with a freshly made channel")
 		// drain: a select receiving from the old channel (loaded from dataChan under the lock), whose received value is sent to the new channel
 		okDrain, okOffer := false, false
-		allInstrs(fn, func(in ssa.Instruction) {
-			sel, ok := in.(*ssa.Select)
+		// the migration loop is in expandDataChannel or in a helper it calls with the two channels: a
+		// channel parameter of the helper stands for the argument of that call
+		hosts := append([]*ssa.Function{fn}, a.helpersOf(fn)...)
+		resolve := func(v ssa.Value) ssa.Value {
+			prm, ok := v.(*ssa.Parameter)
 			if !ok {
-				return
+				return v
 			}
-			for _, st := range sel.States {
-				if st.Dir == types.RecvOnly {
-					if t := TermOf(st.Chan, nil); t.Kind == "field" && t.Field == dc && L.Held(in)[key] == 'W' {
-						okDrain = true
-						// received value -> some select send state on the new channel
-						for _, r := range *sel.Referrers() {
-							ex, ok := r.(*ssa.Extract)
-							if !ok || ex.Index < 2 {
-								continue
-							}
-							for _, rr := range *ex.Referrers() {
-								if s2, ok := rr.(*ssa.Select); ok {
-									for _, st2 := range s2.States {
-										if st2.Dir == types.SendOnly && st2.Send == ssa.Value(ex) && isMk && st2.Chan == ssa.Value(mk) {
-											okOffer = true
+			idx := -1
+			for i, q := range prm.Parent().Params {
+				if q == prm {
+					idx = i
+				}
+			}
+			var out ssa.Value
+			allInstrs(fn, func(x ssa.Instruction) {
+				if c, ok := x.(*ssa.Call); ok && c.Call.StaticCallee() == prm.Parent() && idx >= 0 && idx < len(c.Call.Args) {
+					out = c.Call.Args[idx]
+				}
+			})
+			if out == nil {
+				return v
+			}
+			return out
+		}
+		for _, host := range hosts {
+			allInstrs(host, func(in ssa.Instruction) {
+				sel, ok := in.(*ssa.Select)
+				if !ok {
+					return
+				}
+				for _, st := range sel.States {
+					if st.Dir == types.RecvOnly {
+						if t := TermOf(resolve(st.Chan), nil); t.Kind == "field" && t.Field == dc && L.Held(in)[key] == 'W' {
+							okDrain = true
+							// received value -> some select send state on the new channel
+							for _, r := range *sel.Referrers() {
+								ex, ok := r.(*ssa.Extract)
+								if !ok || ex.Index < 2 {
+									continue
+								}
+								for _, rr := range *ex.Referrers() {
+									if s2, ok := rr.(*ssa.Select); ok {
+										for _, st2 := range s2.States {
+											if st2.Dir == types.SendOnly && st2.Send == ssa.Value(ex) && isMk && resolve(st2.Chan) == ssa.Value(mk) {
+												okOffer = true
+											}
 										}
 									}
-								}
-								if s2, ok := rr.(*ssa.Send); ok && s2.X == ssa.Value(ex) && isMk && s2.Chan == ssa.Value(mk) {
-									okOffer = true
+									if s2, ok := rr.(*ssa.Send); ok && s2.X == ssa.Value(ex) && isMk && resolve(s2.Chan) == ssa.Value(mk) {
+										okOffer = true
+									}
 								}
 							}
 						}
 					}
 				}
-			}
-		})
+			})
+		}
 		// the drain ends only on what the attempt to receive found (channel empty, or the documented
 		// migration timeout): every edge out of the drain loop starts in a block dominated by the select
 		// that receives from the old channel — not at a loop test made before trying (a row count sampled
 		// before the write lock was taken leaves the rows enqueued since then behind)
-		for _, lp := range sccLoops(fn) {
+		var drainLoops []*loopInfo
+		for _, host := range hosts {
+			drainLoops = append(drainLoops, sccLoops(host)...)
+		}
+		for _, lp := range drainLoops {
 			var drainSel *ssa.Select
 			for b := range lp.Blocks {
 				for _, in := range b.Instrs {
 					if sel, ok := in.(*ssa.Select); ok {
 						for _, st := range sel.States {
 							if st.Dir == types.RecvOnly {
-								if t := TermOf(st.Chan, nil); t.Kind == "field" && t.Field == dc {
+								if t := TermOf(resolve(st.Chan), nil); t.Kind == "field" && t.Field == dc {
 									drainSel = sel
 								}
 							}
@@ -405,8 +448,14 @@ func (a *A) ruleStrategyOutcome(fn *ssa.Function, checkNoDropWithoutTimeout bool
 	walkOutcomes = func(fn *ssa.Function, mode string) []Outcome {
 		env := &Env{a: a, Rank: map[string]int{}, Flags: map[string]bool{}, Assume: func(t *Term, v ssa.Value) Tri {
 			if mode == "no-timeout" {
-				if bo, ok := v.(*ssa.BinOp); ok && bo.Op == token.LEQ && isFieldOf(TermOf(bo.X, nil), "stream.Stream", "blockingTimeout") {
-					return T
+				// blockingTimeout <= 0, however the comparison with zero is written
+				if bo, ok := v.(*ssa.BinOp); ok && isFieldOf(TermOf(bo.X, nil), "stream.Stream", "blockingTimeout") && isZeroConst(bo.Y) {
+					switch bo.Op {
+					case token.LEQ:
+						return T
+					case token.GTR:
+						return F
+					}
 				}
 			}
 			return U
